@@ -21,6 +21,8 @@ REQUIRED_COUNTS = ["grid_rows", "knot_neighbourhoods", "tail_points"]
 BUDGET = {"case_timeout": {"quick": 300, "thorough": 1800}}
 
 BOXES = splineref.BOXES + [[-1000.0, 1000.0, -1000.0, 1000.0], [0.0, 4.0, 0.0, 1.0], [-1.0, 3.0, 0.0, 1.0]]
+# narrow boxes far from the origin (float32: the knots are rounded to 6e-5 of a box that is 1 wide)
+FAR_BOXES = [[1000.0, 1001.0, 0.0, 1.0], [-513.0, -512.0, -513.0, -512.0], [96.0, 96.5, 0.0, 1.0], [0.0, 1.0, 2000.0, 2001.0]]
 TAILS = [0.5, 1.0, 3.0, 30.0, 1e3]
 PSCALES = ["zero", 0.3, 1.0, 3.0, "extreme", "huge"]
 
@@ -37,6 +39,11 @@ def gen_cases(tier, seed):
                                   "world": ("f32" if (bi + rep) % 2 else "f64") if ps == "huge" else
                                   "f64" if (bi + pi + rep) % 4 or ps in (3.0, "extreme") else "f32",
                                   "seed": env.subseed(seed, "c09", fam, bi, pi, rep), "tier_": tier, "cost": 1})
+            for bi, bx in enumerate(FAR_BOXES):
+                for pi, ps in enumerate((0.3, 1.0, 3.0)):
+                    K = [2, 5, 8, 10][(bi + pi + rep) % 4]
+                    cases.append({"family": fam, "box": bx, "bins": K, "pscale": ps, "world": "f32" if (bi + pi) % 3 else "f64",
+                                  "seed": env.subseed(seed, "c09far", fam, bi, pi, rep), "tier_": tier, "cost": 1})
             for ti, B in enumerate(TAILS):
                 for pi, ps in enumerate(PSCALES):
                     K = [2, 3, 5, 8, 10, 4][(ti + pi + rep) % 6]
